@@ -38,6 +38,7 @@ type Ctx struct {
 	seen   map[string]int
 
 	sharedReach map[string]bool // non-nil while the shared pool runs: only constructs in these functions are kept
+	reachOnly   bool            // with sharedReach: filter by reachability only (keep non-function keys and repeats)
 }
 
 func newCtx(prop, tier string, p *Prog) *Ctx {
@@ -50,7 +51,12 @@ func (c *Ctx) add(rule, key, pos, verdict, detail string) {
 	if c.sharedReach != nil {
 		// pooled rule: keep the obligation only if its construct lies in a function this property's operations reach,
 		// and only once
-		if fn := c.P.funcOfKey(key); fn == "" || !c.sharedReach[fn] || c.seen[k] > 0 {
+		fn := c.P.funcOfKey(key)
+		if c.reachOnly {
+			if fn != "" && !c.sharedReach[fn] {
+				return
+			}
+		} else if fn == "" || !c.sharedReach[fn] || c.seen[k] > 0 {
 			return
 		}
 	}
